@@ -1,7 +1,9 @@
-(* C02: property theorems (statements proved so far; see bin/propcfg/C02.py for the status). *)
+(* C02: property theorems.  See bin/propcfg/C02.py for the status text. *)
 From Coq Require Import List ZArith Bool Permutation.
-From DD Require Import Model.Circuit Model.Query Proofs.Semantics Proofs.CountsA Proofs.QueryDefs.
+From DD Require Import Model.Circuit Model.Query Proofs.Semantics Proofs.CountsA Proofs.QueryDefs
+  Proofs.C02Proof.
 Import ListNotations.
+Open Scope Z_scope.
 
 (* The specification-level count with the complementary leaves zeroed is the number of models
    that contain all assumed literals (every WF circuit, every in-range assumption list,
@@ -10,3 +12,60 @@ Theorem C02_countsA_is_MCA : forall C n A,
   WF C n -> in_range n A -> nth (root C) (countsA A C) 0 = MCA C n A.
 Proof. exact countsA_MCA. Qed.
 Print Assumptions C02_countsA_is_MCA.
+
+(* MAIN: the model of Ddnnf::execute_query (length 0 -> cached root count; length 1 -> core
+   shortcuts or single marker run; 2..20 -> marker strategy incl. the "at most half of the
+   children marked: divide the cached product" shortcut; > 20 -> full recomputation; both with the
+   core shortcuts reduce_query / query_is_not_sat) returns, for EVERY in-range literal list (any
+   length, order, repetition, contradictory, core and dead literals) and from EVERY Clean scratch
+   state (arbitrary temps / partial derivatives left by earlier operations), exactly the number of
+   rows of the truth table over 1..n that satisfy the circuit and contain all listed literals; and
+   it re-establishes Clean (all markers false, md empty), so the statement composes over any
+   sequence of queries. *)
+Theorem C02_execute_query_correct : forall C n A s,
+  WFQ C n -> in_range n A -> Clean C s ->
+  let '(s', r) := execute_query (build C n) A s in
+  r = MCA C n A /\ Clean C s'.
+Proof. exact execute_query_correct. Qed.
+Print Assumptions C02_execute_query_correct.
+
+(* Both strategies, each run on an arbitrary list (not only in its own length window) and from
+   arbitrary (different) Clean states, return the same number: the truth-table count. *)
+Theorem C02_strategy_independent : forall C n A s1 s2,
+  WFQ C n -> in_range n A -> Clean C s1 -> Clean C s2 ->
+  snd (operate_on_partial_config_marker (build C n) A s1) = MCA C n A /\
+  snd (operate_on_partial_config_default (build C n) A s2) = MCA C n A.
+Proof. exact strategy_independent. Qed.
+Print Assumptions C02_strategy_independent.
+
+(* Truth-table level: the count under A splits over the two values of any feature. *)
+Theorem C02_split : forall C n A x, 1 <= x <= Z.of_nat n ->
+  MCA C n A = MCA C n (x :: A) + MCA C n (- x :: A).
+Proof. exact MCA_split. Qed.
+Print Assumptions C02_split.
+
+(* C16 (count part): the answer does not depend on what was computed before. *)
+Theorem C16_count_history_independent : forall C n A s,
+  WFQ C n -> in_range n A -> Clean C s ->
+  snd (execute_query (build C n) A s) = snd (execute_query (build C n) A (fresh_scratch C)).
+Proof. exact count_history_independent. Qed.
+Print Assumptions C16_count_history_independent.
+
+(* Non-vacuity: x1 & (x2 | -x2): literal 1 is core, -1 is dead; a dirty Clean state; a short and
+   a long (default strategy) list. *)
+Definition ex_c02 : circuit := [Lit 1; Lit 2; Lit (-2); Or [1;2]%nat; And [0;3]%nat].
+Definition ex_dirty : scratch :=
+  {| temps := [7;8;9;10;11]; marks := map (fun _ => false) ex_c02; pds := [5;4;3;2;1]; mdl := [] |}.
+Definition ex_long : cfg := [1;2;1;2;1;2;1;2;1;2;1;2;1;2;1;2;1;2;1;2;1;2].
+Example ex_c02_hyps : WFQ ex_c02 2 /\ in_range 2 ex_long /\ Clean ex_c02 ex_dirty.
+Proof.
+  split; [apply check_wf_WFQ; vm_compute; reflexivity|]. split.
+  - intros l Hl. unfold ex_long in Hl. cbn in Hl.
+    repeat (destruct Hl as [<-|Hl]; [cbn; split; discriminate|]). destruct Hl.
+  - constructor; try reflexivity. cbn. repeat constructor.
+Qed.
+Example ex_c02_values :
+  map (fun A => snd (execute_query (build ex_c02 2) A ex_dirty))
+      [[]; [1]; [-1]; [2]; [1;-2]; [2;-2]; [2;2]; ex_long; (-1) :: ex_long]
+  = [2; 2; 0; 1; 1; 0; 1; 1; 0].
+Proof. vm_compute. reflexivity. Qed.
